@@ -44,6 +44,7 @@ impl State {
 //@use state.fns State::get_var
 //@use state.fns State::swap_cell_ref
 //@use state.fns State::set_var
+//@use state.fns State::update_var
 //@use state.fns State::check_heap_limit
 //@use state.fns State::alloc_heap
 //@use state.fns State::check_calc_limit_enabled
